@@ -42,6 +42,7 @@ def _needed():
 
 
 FIX = _needed()
+_UNI = (OTY, "import collections\n", "import collections\nimport unicodedata\n")
 
 MUTATIONS = [
     # writer: 269 squeezed into the one-byte extension
@@ -60,6 +61,12 @@ MUTATIONS = [
     ("C01", "mid-little-endian-on-decode", FIX + [(MSG, '            (vttkl, code, mid) = struct.unpack("!BBH", rawdata[:4])\n', '            (vttkl, code, mid) = struct.unpack("<BBH", rawdata[:4])\n')]),
     # the UDP receive path no longer catches the parser's error class
     ("C01", "udp6-catches-other-error-class", FIX + [(UDP, "        except error.UnparsableMessage:\n            self.log.warning(\"Ignoring unparsable message from %s\", address)\n", "        except error.BadRequest:\n            self.log.warning(\"Ignoring unparsable message from %s\", address)\n")]),
+    # seeded/C01-seed3: string options normalised to NFC when serialised
+    ("C01", "string-option-nfc-on-encode", FIX + [_UNI, (OTY, '        rawdata = self.value.encode("utf-8")\n', '        rawdata = unicodedata.normalize("NFC", self.value).encode("utf-8")\n')]),
+    # ... decomposed instead
+    ("C01", "string-option-nfd-on-encode", FIX + [_UNI, (OTY, '        rawdata = self.value.encode("utf-8")\n', '        rawdata = unicodedata.normalize("NFD", self.value).encode("utf-8")\n')]),
+    # ... compatibility-composed when parsed
+    ("C01", "string-option-nfkc-on-decode", FIX + [_UNI, (OTY, '        self.value = rawdata.decode("utf-8")\n', '        self.value = unicodedata.normalize("NFKC", rawdata.decode("utf-8"))\n')]),
     # short datagrams: the struct error is no longer translated
     ("C01", "short-datagram-struct-error-escapes", FIX + [(MSG, "        except struct.error:\n            raise error.UnparsableMessage(\"Incoming message too short for CoAP\")\n", "        except struct.error:\n            raise\n")]),
 ]
